@@ -41,6 +41,22 @@ Definition level (k : nat) (f l i : Q) : Prop :=
 Definition is_class_levels (c : capri_class) (f l i : Q) : Prop :=
   level (class_rank c) f l i /\ forall k, (class_rank c < k <= 3)%nat -> ~ level k f l i.
 
+(* executable version of the level reading *)
+Definition class_of_rank (k : nat) : capri_class :=
+  match k with 0%nat => Incorrect | 1%nat => Acceptable | 2%nat => Medium | _ => High end.
+
+Definition levelb (k : nat) (f l i : Q) : bool :=
+  match k with
+  | 0%nat => true
+  | 1%nat => Qleb t01 f && (Qleb l 10 || Qleb i 4)
+  | 2%nat => Qleb t03 f && (Qleb l 5 || Qleb i 2)
+  | _ => Qleb t05 f && (Qleb l 1 || Qleb i 1)
+  end.
+Definition capri_spec (f l i : Q) : capri_class :=
+  if levelb 3 f l i then High else if levelb 2 f l i then Medium
+  else if levelb 1 f l i then Acceptable else Incorrect.
+
+
 (* DockQ, as a real-number formula *)
 Definition dockq_formula (f l i d1 d2 : Q) : Q :=
   (f + 1 / (1 + (l / d1) * (l / d1)) + 1 / (1 + (i / d2) * (i / d2))) / 3.
